@@ -185,6 +185,37 @@ def u_enc(ctx, u):
                 if ref2:
                     _decrypt_all(ctx, key, R.ct_der(*ref2), msg, 'reference-made', n=n)
                     ctx.nontrivial('ref-made', d, msg, k2)
+        # the DER size of C1 depends on the top bits of its coordinates (each INTEGER is 32 or 33 octets): every size class
+        # with the shortest and the longest plaintexts, so that the smallest and the largest ciphertext the format allows
+        # (45 and 366 octets) pass through every interface, the streaming one with its fixed buffer included
+        if u['lo'] == rep % u['step']:
+            for n in (1, 2, 254, 255):
+                msg = _content(rng, n)
+                for cls in ((0, 0), (0, 1), (1, 0), (1, 1)):
+                    k = None
+                    for _ in range(200):
+                        kk = rng.randrange(1, N)
+                        x1, y1 = R.mul(kk, R.G)
+                        if (x1 >> 255, y1 >> 255) == cls and R.encrypt_with_k(pk, msg, kk) is not None:
+                            k = kk
+                            break
+                    if k is None:
+                        continue
+                    ref = R.encrypt_with_k(pk, msg, k)
+                    der_ref = R.ct_der(*ref)
+                    U.force_nonces(ctx, [k])
+                    mb = ctx.inbuf(msg)
+                    out = ctx.buf(366)
+                    ol = ctypes.c_size_t(0)
+                    ctx.begin(['encrypt-size-class', n, cls, hex(k)])
+                    r = lib.sm2_encrypt(pub_only, mb, n, out, ctypes.byref(ol))
+                    got = out.raw(min(ol.value, 366)) if r == 1 else None
+                    ctx.check(got == der_ref, 'encrypt:sm2_encrypt-der-differs', n=n, k=hex(k), size_class=cls, want_len=len(der_ref))
+                    out.free()
+                    mb.free()
+                    _decrypt_all(ctx, key, der_ref, msg, 'roundtrip', n=n, size_class=str(cls), ciphertext_len=len(der_ref))
+                    ctx.nontrivial('size-class', n, cls, d)
+                    ctx.stat_max('largest_ciphertext_seen', len(der_ref))
         key.free()
         pub_only.free()
     ctx.sample({'kind': 'enc', 'lengths': lens[:10], 'd': hex(d)})
